@@ -87,4 +87,24 @@ def handleSpec (toks : List String) : String :=
       | _ => "unknown-spec"
   | _ => "bad-op"
 
+/-- `specdefaults name pfx` : documented default tables of the Spec -/
+def handleSpecDefaults (toks : List String) : String :=
+  match toks with
+  | [name, pfx] =>
+    let t : Option (List (String × Float)) :=
+      match name with
+      | "HH" => some (Spec.HH.defaults pfx)
+      | "Leak" => some (Spec.Posp.leak_defaults pfx)
+      | "Na" => some (Spec.Posp.na_defaults pfx)
+      | "K" => some (Spec.Posp.k_defaults pfx)
+      | "Km" => some (Spec.Posp.km_defaults pfx)
+      | "CaL" => some (Spec.Posp.cal_defaults pfx)
+      | "CaT" => some (Spec.Posp.cat_defaults pfx)
+      | "IonotropicSynapse" => some (Spec.AM.defaults pfx)
+      | _ => none
+    match t with
+    | some kv => "ok " ++ showKV fbits kv
+    | none => "unknown-spec"
+  | _ => "bad-op"
+
 end Driver
